@@ -451,7 +451,34 @@ fn split_info(fi: &FontInfo) -> (Vec<(String, u64)>, Option<u64>, FontInfo) {
     (nums, upm, rest)
 }
 
-const STRS: [&str; 10] = ["", " ", "Regular", "a\nb", " lead", "trail ", "\u{e9}\u{4e2d}", "<&>\"'", "x\ty", "\u{a0}"];
+const STRS: [&str; 14] = [
+    "", " ", "Regular", "a\nb", " lead", "trail ", "\u{e9}\u{4e2d}", "<&>\"'", "x\ty", "\u{a0}", "\u{1F600}\u{10FFFF}", "a\rb", "&amp;lt;",
+    "]]> <!-- x --> <?pi?>",
+];
+
+/// names (`Name`: everything but control characters) that need care in XML: special characters, blanks at
+/// the ends, non-BMP characters, text that looks like an entity
+pub const XNAMES: [&str; 9] =
+    ["R&D", "a<b>c", "q\"uo'te", " lead", "trail ", "\u{1F600}x", "&amp;", "a\u{a0}b", "x]]>y"];
+/// identifiers (0x20..=0x7E) that need care in XML
+pub const XIDS: [&str; 9] = ["R&D", "5\" mark", "a<b>", "'q'", "a&lt;b", " sp ", "~", "id", "&#65;"];
+
+/// a name from `plain`, or (one time in three) one of the XML-hostile names
+pub fn xname(r: &mut Rng, plain: &[&str]) -> String {
+    if r.chance(1, 3) {
+        r.pick(&XNAMES).to_string()
+    } else {
+        r.pick(plain).to_string()
+    }
+}
+
+fn xid(r: &mut Rng, n: usize) -> String {
+    if r.chance(1, 2) {
+        format!("{}{}", r.pick(&XIDS), n)
+    } else {
+        format!("id{}", n)
+    }
+}
 
 fn rstr(r: &mut Rng) -> String {
     r.pick(&STRS).to_string()
@@ -654,7 +681,7 @@ fn guide_rest(seed: &str) -> (Line, Option<Name>, Option<Color>) {
             degrees: *r.pick(&[0.0, 45.5, 90.0, 359.999, 360.0]),
         },
     };
-    let name = if r.chance(1, 2) { Some(Name::new(*r.pick(&["top", "a b", "\u{e9}"])).unwrap()) } else { None };
+    let name = if r.chance(1, 2) { Some(Name::new(&xname(&mut r, &["top", "a b", "\u{e9}"])).unwrap()) } else { None };
     let color = if r.chance(1, 2) { Some(color3(&mut r)) } else { None };
     (line, name, color)
 }
@@ -663,9 +690,9 @@ pub fn simple_lib(r: &mut Rng) -> Dictionary {
     // inherited guard (C02): no line breaks in glyph-lib strings or keys
     let mut d = Dictionary::new();
     for _ in 0..r.below(3) {
-        let k = r.pick(&["com.a", "k", "public.x", "z z"]).to_string();
+        let k = r.pick(&["com.a", "k", "public.x", "z z", "<&>\"'", "\u{1F600}k", " sp ", "&amp;k"]).to_string();
         let v = match r.below(5) {
-            0 => Value::String(r.pick(&["v", "", "a b", "<&>"]).to_string()),
+            0 => Value::String(r.pick(&["v", "", "a b", "<&>", "q\"uo'te", "\u{1F600}", " lead", "trail ", "&amp;lt;", "]]>"]).to_string()),
             1 => Value::Integer((r.range(-5, 5)).into()),
             2 => Value::Real(r.range(-40, 40) as f64 / 8.0),
             3 => Value::Boolean(r.chance(1, 2)),
@@ -687,7 +714,7 @@ pub fn mk_glyph(name: &str, tok: &str) -> Glyph {
     let mut fresh = |r: &mut Rng, force: bool| -> Option<Identifier> {
         if force || r.chance(1, 3) {
             idn += 1;
-            Some(Identifier::new(&format!("id{}", idn)).unwrap())
+            Some(Identifier::new(&xid(r, idn)).unwrap())
         } else {
             None
         }
@@ -699,7 +726,7 @@ pub fn mk_glyph(name: &str, tok: &str) -> Glyph {
     }
     if r.chance(1, 4) {
         // inherited guard (C02): notes are trimmed on load; only notes without blanks at the ends
-        g.note = Some(r.pick(&["note", "two words", "l1\nl2", "<&>"]).to_string());
+        g.note = Some(r.pick(&["note", "two words", "l1\nl2", "<&>", "q\"uo'te & <tag>", "\u{1F600} note", "&amp;lt;", "a ]]> b"]).to_string());
     }
     for _ in 0..r.below(3) {
         let withlib = r.chance(1, 3);
@@ -715,7 +742,7 @@ pub fn mk_glyph(name: &str, tok: &str) -> Glyph {
         let mut a = Anchor::new(
             plain_num(&mut r),
             plain_num(&mut r),
-            if r.chance(1, 2) { Some(Name::new("top").unwrap()) } else { None },
+            if r.chance(1, 2) { Some(Name::new(&xname(&mut r, &["top", "_bottom"])).unwrap()) } else { None },
             if r.chance(1, 3) { Some(color3(&mut r)) } else { None },
             fresh(&mut r, withlib),
         );
@@ -737,7 +764,7 @@ pub fn mk_glyph(name: &str, tok: &str) -> Glyph {
                 y_offset: 0.0,
             }
         };
-        g.components.push(Component::new(Name::new(*r.pick(&["a", "B", "c.alt"])).unwrap(), t, fresh(&mut r, false)));
+        g.components.push(Component::new(Name::new(&xname(&mut r, &["a", "B", "c.alt"])).unwrap(), t, fresh(&mut r, false)));
     }
     for _ in 0..r.below(3) {
         let closed = r.chance(2, 3);
@@ -765,7 +792,7 @@ pub fn mk_glyph(name: &str, tok: &str) -> Glyph {
                 plain_num(&mut r),
                 typ.clone(),
                 r.chance(1, 4) && typ != PointType::OffCurve,
-                if r.chance(1, 6) { Some(Name::new("p").unwrap()) } else { None },
+                if r.chance(1, 6) { Some(Name::new(&xname(&mut r, &["p"])).unwrap()) } else { None },
                 fresh(&mut r, withlib),
             );
             if withlib {
@@ -783,7 +810,7 @@ pub fn mk_glyph(name: &str, tok: &str) -> Glyph {
     if r.chance(1, 6) {
         g.image = Some(
             Image::new(
-                PathBuf::from("img.png"),
+                PathBuf::from(*r.pick(&["img.png", "a&b.png", ".backdrop.png", "q\"'<>.png", "\u{1F600}.png", " sp .png"])),
                 if r.chance(1, 2) { Some(color3(&mut r)) } else { None },
                 if r.chance(1, 2) {
                     AffineTransform::default()
@@ -1337,7 +1364,7 @@ fn dict_gen(r: &mut Rng, depth: usize) -> Dictionary {
     let mut d = Dictionary::new();
     let n = r.below(5);
     for _ in 0..n {
-        let k = r.pick(&["zz", "a", "com.x.y", "k\nl", " ", "\u{e9}", "B", "public.glyphOrder", "<k>", "a b"]).to_string();
+        let k = r.pick(&["zz", "a", "com.x.y", "k\nl", " ", "\u{e9}", "B", "public.glyphOrder", "<k>", "a b", "q\"k'", "\u{1F600}", "&amp;k", " k ", "R&D"]).to_string();
         let v = pv_gen(r, depth);
         d.insert(k, v);
     }
@@ -1356,7 +1383,7 @@ pub fn gen_spec(r: &mut Rng, flavour: usize) -> Spec {
     );
     s.creator = match r.below(5) {
         0 => None,
-        1 => Some("com.other.tool".to_string()),
+        1 => Some(r.pick(&["com.other.tool", "R&D <tool> \"x\" 'y' \u{1F600}", " blank ", "&amp;"]).to_string()),
         2 => Some(String::new()),
         _ => Some(DEFAULT_CREATOR.to_string()),
     };
@@ -1400,7 +1427,7 @@ pub fn gen_spec(r: &mut Rng, flavour: usize) -> Spec {
             let mut gs = Vec::new();
             for i in 0..n {
                 let lib = if r.chance(1, 2) { Some(dict_gen(r, 2)) } else { None };
-                let id = if lib.is_some() || r.chance(1, 2) { Some(format!("g{}", i)) } else { None };
+                let id = if lib.is_some() || r.chance(1, 2) { Some(xid(r, i)) } else { None };
                 gs.push((id, lib, format!("{}", r.next() % 100000)));
             }
             s.guides = Some(gs);
@@ -1414,13 +1441,13 @@ pub fn gen_spec(r: &mut Rng, flavour: usize) -> Spec {
         let mut used1 = Vec::new();
         let mut used2 = Vec::new();
         for _ in 0..r.below(4) {
-            let g = r.pick(&["public.kern1.O", "public.kern2.O", "public.kern1.X", "grp", "a b", "\u{e9}", " "]).to_string();
+            let g = xname(r, &["public.kern1.O", "public.kern2.O", "public.kern1.X", "grp", "a b", "\u{e9}", " ", "public.kern1.R&D", "public.kern2.<q\"'>"]);
             if m.contains_key(&g) {
                 continue;
             }
             let mut ns = Vec::new();
             for _ in 0..r.below(4) {
-                let n = r.pick(&GNAMES).to_string();
+                let n = xname(r, &GNAMES);
                 let used = if g.starts_with("public.kern1.") {
                     &mut used1
                 } else if g.starts_with("public.kern2.") {
@@ -1441,11 +1468,11 @@ pub fn gen_spec(r: &mut Rng, flavour: usize) -> Spec {
     if r.chance(2, 3) {
         let mut m: BTreeMap<String, BTreeMap<String, u64>> = BTreeMap::new();
         for _ in 0..r.below(5) {
-            let a = r.pick(&KNAMES).to_string();
+            let a = xname(r, &KNAMES);
             let e = m.entry(a).or_default();
             for _ in 0..r.below(4) {
                 let v = if tiny && r.chance(1, 3) { tiny_num(r) } else { num_pool(r, false) };
-                e.insert(r.pick(&KNAMES).to_string(), v.to_bits());
+                e.insert(xname(r, &KNAMES), v.to_bits());
             }
         }
         s.kerning = m.into_iter().map(|(a, e)| (a, e.into_iter().collect())).collect();
@@ -1453,7 +1480,7 @@ pub fn gen_spec(r: &mut Rng, flavour: usize) -> Spec {
     if r.chance(1, 2) {
         let n = 1 + r.below(6);
         s.features = (0..n)
-            .map(|_| *r.pick(&["feature kern {", "\r\n", "\n", "\r", "} kern;", "# \u{e9}", " ", "\r\r\n", "\n\r"]))
+            .map(|_| *r.pick(&["feature kern {", "\r\n", "\n", "\r", "} kern;", "# \u{e9}", " ", "\r\r\n", "\n\r", "& < > \" '", "\u{1F600}", "&amp;", "\t"]))
             .collect();
     }
     // layers
@@ -1464,7 +1491,7 @@ pub fn gen_spec(r: &mut Rng, flavour: usize) -> Spec {
         let name = if i == 0 {
             if r.chance(1, 3) { "fore".to_string() } else { "public.default".to_string() }
         } else {
-            let n = r.pick(&lnames).to_string();
+            let n = xname(r, &lnames);
             if used.contains(&n) {
                 continue;
             }
@@ -1491,14 +1518,22 @@ pub fn gen_spec(r: &mut Rng, flavour: usize) -> Spec {
         let mut glyphs: BTreeMap<String, String> = BTreeMap::new();
         for _ in 0..r.below(5) {
             let seed = if r.chance(1, 5) { 0 } else { 1 + r.next() % 1_000_000 };
-            glyphs.insert(r.pick(&GNAMES).to_string(), format!("{}", seed));
+            glyphs.insert(xname(r, &GNAMES), format!("{}", seed));
         }
         s.layers.push(LayerSpec { name, color, lib, glyphs: glyphs.into_iter().collect() });
     }
     if r.chance(1, 4) {
         let mut m: BTreeMap<String, Vec<u8>> = BTreeMap::new();
         for _ in 0..1 + r.below(3) {
-            let p = r.pick(&["a.txt", "sub/b.bin", "sub/deeper/c", "com.x.plist", "\u{e9}"]).to_string();
+            let p = r
+                .pick(&[
+                    "a.txt", "sub/b.bin", "sub/deeper/c", "com.x.plist", "\u{e9}",
+                    // hidden files and directories, at the top and nested
+                    ".editorstate", "com.example.tool/.lock", ".cache/x.bin", "a/.b/c", "..hidden", ".DS_Store", "dir/.hidden/deep/f",
+                    // XML-hostile and unusual names (they only ever appear in the file system)
+                    "a&b.txt", "x<y>.bin", "q\"uo'te.txt", " lead.txt", "trail ", "\u{1F600}.bin", "sp ace/in dir/f g",
+                ])
+                .to_string();
             m.insert(p, (0..r.below(6)).map(|_| r.below(256) as u8).collect());
         }
         // a key may not be a prefix directory of another (store rule)
@@ -1510,7 +1545,7 @@ pub fn gen_spec(r: &mut Rng, flavour: usize) -> Spec {
         for _ in 0..1 + r.below(2) {
             let mut b = png.clone();
             b.extend((0..r.below(4)).map(|_| r.below(256) as u8));
-            m.insert(r.pick(&["img.png", "B.png", "x"]).to_string(), b);
+            m.insert(r.pick(&["img.png", "B.png", "x", ".backdrop.png", "..hidden.png", "a&b.png", "sp ace.png", "q'\".png", "\u{1F600}.png", ".x"]).to_string(), b);
         }
         s.images = m.into_iter().collect();
     }
